@@ -147,6 +147,52 @@ class ShapeEvaluateH(_Shape):
         return {"violated": violated, "detail": detail}
 
 
+class ShapeOwnRangeH(_Shape):
+    """an interpretation that also names the model's OWN id with the non-fixing range (0,1) -- as a tuple or as puan.Bounds --
+    next to a total assignment of the leaves: the range says nothing, so evaluate() still returns the truth value, and
+    assume(range).evaluate(leaves) agrees"""
+    name = "shape.own-range"
+    function = "AtLeast.evaluate"
+    quick_shapes = ["flat", "nested"]
+    thorough_shapes = ["flat", "nested", "shared-leaf"]
+
+    def cases(self):
+        out = []
+        for base in sign_cases(self.quick_shapes if _tier() == "quick" else self.thorough_shapes):
+            for form in ("tuple", "bounds"):
+                out.append({**base, "form": form})
+        return out
+
+    def run(self, c, st):
+        rng = (0, 1) if c.state_case["form"] == "tuple" else c.repo.puan.Bounds(0, 1)
+        top = st["top"]
+        two = top.assume({"T": rng}).evaluate(dict(st["env"]))
+        one = top.evaluate({**st["env"], "T": rng})
+        return {"one": one, "two": two}
+
+    def ensures(self, c, st, res):
+        t = truth(st["top"], st["env"])
+        return [("shape.own-range.evaluate", band(res["one"].lower == t, res["one"].upper == t)),
+                ("shape.own-range.assume-then-evaluate", band(res["two"].lower == t, res["two"].upper == t))]
+
+    def replay(self, w):
+        import puan
+        top, tree = self.native(w)
+        violated, detail = [], {"model": top.to_text()}
+        rng = (0, 1) if w["case"]["form"] == "tuple" else puan.Bounds(0, 1)
+        for env in self.points(w, tree):
+            t = self.tv(w, tree, "T", env)
+            m, _ = self.native(w)
+            one = m.evaluate({**env, "T": rng})
+            m2, _ = self.native(w)
+            two = m2.assume({"T": rng}).evaluate(dict(env))
+            if tuple(one.as_tuple()) != (t, t) and "shape.own-range.evaluate" not in violated:
+                violated.append("shape.own-range.evaluate"); detail.update(interpretation=env, got=[int(x) for x in one.as_tuple()], want=t)
+            if tuple(two.as_tuple()) != (t, t) and "shape.own-range.assume-then-evaluate" not in violated:
+                violated.append("shape.own-range.assume-then-evaluate"); detail.update(interpretation=env, got2=[int(x) for x in two.as_tuple()], want=t)
+        return {"violated": violated, "detail": detail}
+
+
 class ShapePartialH(_Shape):
     name = "shape.partial"
     function = "AtLeast.evaluate"
@@ -449,4 +495,4 @@ class ShapeJsonImplyH(_Shape):
         return {"violated": violated, "detail": detail}
 
 
-HARNESSES = [ShapeJsonImplyH(), ShapeEvaluateH(), ShapePartialH(), ShapeAssumeH(), ShapeNegateH(), ShapeReduceH(), ShapeJsonH()]
+HARNESSES = [ShapeJsonImplyH(), ShapeOwnRangeH(), ShapeEvaluateH(), ShapePartialH(), ShapeAssumeH(), ShapeNegateH(), ShapeReduceH(), ShapeJsonH()]
